@@ -184,7 +184,7 @@ class Source:
         return out
 
     def find_struct(self, name):
-        mt = re.search(r'(?<![\w])struct\s+%s\b' % re.escape(name), self.m)
+        mt = re.search(r'(?<![\w])(?:struct|enum)\s+%s\b' % re.escape(name), self.m)
         if not mt:
             raise LostAnchor('struct %s not found in %s' % (name, self.path))
         # tuple struct or braced struct
@@ -357,7 +357,9 @@ def build_unit(repo, overlay):
     for it in overlay['items']:
         kind = it['kind']
         if kind == 'struct':
-            out.append(it.get('attrs', '') + strip_vis_struct(S(it['file']).find_struct(it['name'])) + '\n')
+            raw = S(it['file']).find_struct(it['name'])
+            # keep_vis: only doc comments are dropped (a public enum whose open spec fns must see its constructors)
+            out.append(it.get('attrs', '') + (('pub ' + re.sub(r'(?m)^\s*(///|//!).*\n', '', raw)) if it.get('keep_vis') else strip_vis_struct(raw)) + '\n')
         elif kind == 'const':
             out.append(strip_vis_struct(S(it['file']).find_const(it['name'])) + '\n')
         elif kind == 'raw':
